@@ -225,6 +225,13 @@ class RestartStageHandler(StabilizeHandler[RestartStage], _ControlHandler):
                 return
 
             reset_stage_for_retry(stage)
+            # The stage's synthetic before / after stages belong to it and run again with
+            # it (JumpToStage re-arms them the same way). Left as they were, the re-run
+            # stage pushes StartStage for children that are already complete - dropped -
+            # and nothing ever continues the stage.
+            children = self.repository.get_synthetic_stages(execution.id, stage.id) or []
+            for child in children:
+                reset_stage_for_retry(child)
 
             execution_changed = False
             if execution.status.is_complete:
@@ -234,6 +241,8 @@ class RestartStageHandler(StabilizeHandler[RestartStage], _ControlHandler):
 
             with self.repository.transaction(self.queue) as txn:
                 txn.store_stage(stage)
+                for child in children:
+                    txn.store_stage(child)
                 if execution_changed:
                     txn.update_workflow_status(execution)
                 if message.message_id:
